@@ -125,6 +125,9 @@ class PrintUsingFormatter:
             fmt_str += '.'
             fmt_str += str(len(fmt) - options['decimal_point'])
             fmt_str += 'f'
+        else:
+            # a field without a decimal point shows no decimals
+            fmt_str += '.0f'
         fmt_str += '}'
 
         if 'sign' in options:
